@@ -1013,7 +1013,8 @@ class ThreeFrameTVG():
             if v.location.start == start_index - 1 \
                     and (v.is_insertion() or v.is_deletion()) \
                     and not v.is_fusion() \
-                    and not v.is_alternative_splicing():
+                    and not v.is_alternative_splicing() \
+                    and v.location.end < len(self.seq.seq):
                 v.to_end_inclusion(self.seq)
 
             # Skip variants that the position is smaller than the first NT
